@@ -54,7 +54,8 @@ def modelGrid (j : Json) (what : String) (net : Net) (X : List (List Rat)) :
     Except String (Option (List (List Rat) × (List Rat → List Rat))) := do
   let cols := columns X net.D
   let u := net.polys
-  if what = "net" then
+  if what = "holds_only" then pure none    -- (no model for this request: `Holds.C11` on the observation only)
+  else if what = "net" then
     let fwd := spinnOut net.R net.M (spinnRes (featVal net.coef (net.R * net.M)) X net.D) net.D
     pure (some (fwd, valuesAt net.off u))
   else if what = "op" then
